@@ -282,7 +282,23 @@ func c11FixedCases() []fxCase {
 		{id: "R4-pkglen-4-bytes-70000", what: "a method of 70 000 bytes written with the 4-byte package length (third length byte in use)", tables: [][]byte{fxBigMethod(70000, 4)}, check: fxBigMethodCheck},
 		{id: "R5-pkglen-4-bytes-1100000", what: "a method of 1 100 000 bytes (4-byte package length, all four bytes in use) followed by a Name", tables: [][]byte{fxBigMethod(1100000, 4)}, check: fxBigMethodCheck},
 
+		{id: "T1-increment-index", what: "Increment(Index(Arg0, 1, )): a Type6 opcode where a SuperName is expected", tables: [][]byte{fxMethod(fxNS("", "MAA1"), 1, []byte{byte(pOpIncrement), byte(pOpIndex), byte(pOpArg0), 0x0a, 1, 0x00})}, check: fxOperands("\\MAA1", pOpIndex, 3)},
+		{id: "T2-increment-derefof", what: "Increment(DerefOf(Arg0))", tables: [][]byte{fxMethod(fxNS("", "MAA1"), 1, []byte{byte(pOpIncrement), byte(pOpDerefOf), byte(pOpArg0)})}, check: fxOperands("\\MAA1", pOpDerefOf, 1)},
+		{id: "T3-increment-refof", what: "Increment(RefOf(Local0))", tables: [][]byte{fxMethod(fxNS("", "MAA1"), 1, []byte{byte(pOpIncrement), byte(pOpRefOf), byte(pOpLocal0)})}, check: fxOperands("\\MAA1", pOpRefOf, 1)},
+		{id: "T4-sizeof-derefof-then-statement", what: "SizeOf(DerefOf(Arg0)) Increment(Local0): DerefOf takes exactly its operand", tables: [][]byte{fxMethod(fxNS("", "MAA1"), 1, []byte{byte(pOpSizeOf), byte(pOpDerefOf), byte(pOpArg0), byte(pOpIncrement), byte(pOpLocal0)})}, check: fxOperands("\\MAA1", pOpDerefOf, 1)},
+		{id: "T5-notify-derefof-index", what: "Notify(DerefOf(Index(Arg0, 1, )), 0x80)", tables: [][]byte{fxMethod(fxNS("", "MAA1"), 1, []byte{byte(pOpNotify), byte(pOpDerefOf), byte(pOpIndex), byte(pOpArg0), 0x0a, 1, 0x00, 0x0a, 0x80})}, check: fxOperands("\\MAA1", pOpNotify, 2)},
+		{id: "T6-store-to-index", what: "Store(1, Index(Arg0, 1, ))", tables: [][]byte{fxMethod(fxNS("", "MAA1"), 1, []byte{byte(pOpStore), 0x0a, 1, byte(pOpIndex), byte(pOpArg0), 0x0a, 1, 0x00})}, check: fxOperands("\\MAA1", pOpIndex, 3)},
+		{id: "T7-increment-index-then-statement", what: "Increment(Index(Arg0, 1, )) Increment(Local0)", tables: [][]byte{fxMethod(fxNS("", "MAA1"), 1, []byte{byte(pOpIncrement), byte(pOpIndex), byte(pOpArg0), 0x0a, 1, 0x00, byte(pOpIncrement), byte(pOpLocal0)})}, check: fxOperands("\\MAA1", pOpIndex, 3)},
+		{id: "T8-store-to-derefof-index", what: "Store(1, DerefOf(Index(Arg0, 1, )))", tables: [][]byte{fxMethod(fxNS("", "MAA1"), 1, []byte{byte(pOpStore), 0x0a, 1, byte(pOpDerefOf), byte(pOpIndex), byte(pOpArg0), 0x0a, 1, 0x00})}, check: fxOperands("\\MAA1", pOpStore, 2)},
+		{id: "T9-add-with-index-target", what: "Add(1, 2, Index(Arg0, 1, ))", tables: [][]byte{fxMethod(fxNS("", "MAA1"), 1, []byte{byte(pOpAdd), 0x0a, 1, 0x0a, 2, byte(pOpIndex), byte(pOpArg0), 0x0a, 1, 0x00})}, check: fxOperands("\\MAA1", pOpAdd, 3)},
+		{id: "F10-type6-inside-refof", what: "Increment(RefOf(DerefOf(Arg0))): the operand of a Type6 opcode nested two SuperNames deep was looked for one level up only and the table was rejected", tables: [][]byte{fxMethod(fxNS("", "MAA1"), 1, []byte{byte(pOpIncrement), byte(pOpRefOf), byte(pOpDerefOf), byte(pOpArg0)})}, check: fxOperands("\\MAA1", pOpDerefOf, 1)},
+		{id: "F11-name-below-type6-target-in-deferred-block", what: "Name(NAA0,1) Method(MAA1,0){While(One){ToHexString(0x51, DerefOf(NAA0))}}: a name below a Type6 opcode written as a target inside a deferred block was looked up from an unattached object",
+			tables: [][]byte{fxCat(fxName(fxNS("", "NAA0"), fxOne...), fxMethod(fxNS("", "MAA1"), 0,
+				fxPkg([]byte{byte(pOpWhile)}, []byte{byte(pOpOne)}, []byte{byte(pOpToHexString), 0x0a, 0x51, byte(pOpDerefOf)}, fxNS("", "NAA0"))))},
+			check: fxOperands("\\MAA1", pOpDerefOf, 1)},
 		// ---- open findings (expected to fail with the recorded observation) ----
+		{id: "K15b-acquire-derefof-timeout", what: "Acquire(DerefOf(Arg0), 0xffff): the operands of DerefOf are left for the second pass, the timeout word is read from the bytes that follow DerefOf's opcode", tables: [][]byte{fxMethod(fxNS("", "MAA1"), 1, fxCat(c11OpBytes(pOpAcquire), []byte{byte(pOpDerefOf), byte(pOpArg0), 0xff, 0xff}))}, check: fxOperands("\\MAA1", pOpAcquire, 2)},
+		{id: "K15c-condrefof-type6-then-second-name", what: "CondRefOf(DerefOf(Arg0), RefOf(Local0)): DerefOf's operand is taken as CondRefOf's second name, the real second name is left behind as a statement", tables: [][]byte{fxMethod(fxNS("", "MAA1"), 1, fxCat(c11OpBytes(pOpCondRefOf), []byte{byte(pOpDerefOf), byte(pOpArg0), byte(pOpRefOf), byte(pOpLocal0)}))}, check: fxOperands("\\MAA1", pOpCondRefOf, 2)},
 		{id: "K1a-scope-below-device", what: "Scope(\\_SB_.DAA0.DAA1){Name(NAA0,1)}: a path with a segment below a Device never resolves",
 			tables: [][]byte{fxCat(fxScope(fxNS("\\", "_SB_"), fxDev(fxNS("", "DAA0"), fxDev(fxNS("", "DAA1")))), fxScope(fxNS("\\", "_SB_", "DAA0", "DAA1"), fxName(fxNS("", "NAA0"), fxOne...)))},
 			check:  fxWant("\\_SB_.DAA0.DAA1.NAA0")},
